@@ -76,6 +76,7 @@ package configuration
 //@   probe cfgState: result.Status.State
 //@   modifies storedCfgCommitted, storedCfgApplied, readCfgOK, readCfgIndex, readCfgProposed, readCfgCommitted, readCfgApplied, readCfgState, readCfgTerm, readCfgAppliedTerm, readCfgMaster, readValuesDom, readValuesVal
 //@   ensures readCfgOK == (err == nil)
+//@   ensures errWF(err)
 //@   ensures err == nil ==> readValuesDom == domOf(result.Values) && readValuesVal == valsOf(result.Values)
 //@   ensures err == nil ==> readCfgIndex == result.Index && readCfgProposed == result.Status.Proposed.Index && readCfgCommitted == result.Status.Committed.Index && readCfgApplied == result.Status.Applied.Index && readCfgState == result.Status.State && readCfgTerm == result.Status.Mastership.Term && readCfgAppliedTerm == result.Status.Applied.Mastership.Term && readCfgMaster == result.Status.Mastership.Master
 //@   ensures err != nil ==> result == nil && storedCfgCommitted == old(storedCfgCommitted) && storedCfgApplied == old(storedCfgApplied)
